@@ -44,6 +44,7 @@
  *   after: renewed activity relative to pre-gap level = -4.0 .. +5.6 dB                                  -> limit +-9 dB (>= 3 dB margin)
  * (the cal_* counters of every run report the observed extremes as milli-dB + 200000) */
 #define GAP_DB    30.0   /* gap at least this far below the active level */
+#define RESUME_DB 25.0   /* loud part of the first frame of renewed activity at most this far below the pre-gap level (provisional) */
 #define AFTER_DB  9.0    /* renewed activity within this many dB of the pre-gap level */
 
 #ifdef FIXED_POINT
@@ -99,17 +100,29 @@ static void mk_signals(void){
 typedef struct { int since,run,seen,last_active; } mon_t;    /* times in half ms */
 #define MAXLVL 6
 typedef struct {
-   cfg_t c; int k,gs,P,W,Lt,encsz,n1,passidx; OpusEncoder *enc[MAXLVL+1]; mon_t mon[MAXLVL+1]; int sw[MAXLVL+1]; int nsw;
+   cfg_t c; int k,gs,P,W,Lt,Lt0,encsz,n1,passidx,mixed; int swo[MAXLVL+1]; int swone[MAXLVL+1]; OpusEncoder *enc[MAXLVL+1]; mon_t mon[MAXLVL+1]; int sw[MAXLVL+1]; int nsw;
    long nfail; int decmode;
 } ctx_t;
 
-static mc_ctr *c_dtxmode[3];
+static mc_ctr *c_dtxmode[3],*c_mixed;
 static mc_ctr *c_sched,*c_enc,*c_eval,*c_dtxpk,*c_refresh,*c_cfg,*c_maxrun,*c_dec,*c_decpk;
-static mc_ctr *c_gapmax_mdB,*c_aftermin_mdB,*c_aftermax_mdB;
+static mc_ctr *c_gapmax_mdB,*c_aftermin_mdB,*c_aftermax_mdB,*c_resmin_mdB;
 static mc_set *S_states,*S_obs;
 static int g_hash_states=1;
 
-static const char *swstr(ctx_t *x){ static char b[200]; int i,k=0; b[0]=0; for(i=0;i<x->nsw;i++) k+=snprintf(b+k,sizeof b-k,"%s%gms",i?",":"",(x->sw[i]*x->gs)*x->c.tq/2.0); if(!x->nsw) snprintf(b,sizeof b,"none"); return b; }
+static const char *swstr(ctx_t *x){ static char b[300]; int i,k=0; b[0]=0;
+   for(i=0;i<x->nsw;i++){ k+=snprintf(b+k,sizeof b-k,"%s%gms",i?",":"",(x->sw[i]*x->gs)*x->c.tq/2.0); if(x->swo[i]) k+=snprintf(b+k,sizeof b-k,"+%gms(inside the frame)",x->swo[i]/2.0); if(x->swone[i]) k+=snprintf(b+k,sizeof b-k,"[one channel active]"); }
+   if(!x->nsw) snprintf(b,sizeof b,"none"); return b; }
+
+/* intra-frame switch offsets (half ms) for a frame of tq half ms: 1/4, 1/2, 3/4 of the frame, 5 and 10 ms before its end, every
+   20 ms sub-frame boundary; only offsets that are multiples of 2.5 ms strictly inside the frame; frames of >= 10 ms */
+static int mix_offsets(int tq,int *o){
+   int n=0,c[16],nc=0,i,j;
+   if (tq<20) return 0;
+   c[nc++]=tq/4; c[nc++]=tq/2; c[nc++]=3*tq/4; c[nc++]=tq-10; c[nc++]=tq-20; for(i=40;i<tq&&nc<16;i+=40) c[nc++]=i;
+   for(i=0;i<nc;i++){ int v=c[i],dup=0; if(v<=0||v>=tq||v%5) continue; for(j=0;j<n;j++) if(o[j]==v)dup=1; if(!dup) o[n++]=v; }
+   return n;
+}
 
 static OpusEncoder *mk_encoder(const cfg_t *c,int *psz){
    int sz=opus_encoder_get_size(c->ch); OpusEncoder *e=malloc(sz); if(psz)*psz=sz;
@@ -119,10 +132,22 @@ static OpusEncoder *mk_encoder(const cfg_t *c,int *psz){
 }
 
 /* one encode + monitor.  frame index fidx is absolute on the time line (warm-up included). Returns packet length. */
-static int step(ctx_t *x,OpusEncoder *e,mon_t *m,int active,int fidx,unsigned char *pkt){
+/* one encode + monitor.  frame index fidx is absolute on the time line (warm-up included).  `active` is the state the frame ends in;
+   mixo > 0 (half ms): MIXED frame, its first mixo half-ms are in the opposite state (the switch lies inside the frame);
+   onech: the active samples have channel 0 digitally silent (stereo only).  Returns packet length.
+   Oracle for a mixed frame (statement): a frame that contains renewed activity (loud samples after silence) is the first frame of
+   renewed activity and must be coded normally; a frame that begins active and turns silent is an active frame, the silence
+   after it started mixo into the frame. */
+static short g_mixbuf[5760*2];
+static int step2(ctx_t *x,OpusEncoder *e,mon_t *m,int active,int mixo,int onech,int fidx,unsigned char *pkt){
    const cfg_t *c=&x->c; int T=c->tq, n, dtx=-1, tiny; const char *why=NULL; char sig[64];
    const short *in = active ? g_act[c->fi][c->ch]+(size_t)fidx*c->fsz*c->ch : g_sil;
-   int start=m->since, kind;
+   int start=m->since, kind, loud = active || mixo>0;
+   if (mixo>0 || (onech && active)){
+      int i, os=c->Fs/2000*mixo, ch=c->ch; const short *a=g_act[c->fi][ch]+(size_t)fidx*c->fsz*ch;
+      for(i=0;i<c->fsz;i++){ int on = (i>=os) ? active : !active, k; for(k=0;k<ch;k++) g_mixbuf[i*ch+k] = (on && !(onech && k==0)) ? a[i*ch+k] : 0; }
+      in=g_mixbuf;
+   }
    n=opus_encode(e,in,c->fsz,pkt,1500); MC_INC(c_enc);
    opus_encoder_ctl(e,OPUS_GET_IN_DTX(&dtx));
    tiny = n>0 && n<=2;
@@ -130,11 +155,11 @@ static int step(ctx_t *x,OpusEncoder *e,mon_t *m,int active,int fidx,unsigned ch
    if (!c->dtx){
       /* statement: no packet of two bytes or fewer as long as bitrate and buffer allow >= 3 bytes per frame (always true on this grid) */
       if (tiny && (long)c->rate*T/16000>=3) why="dtxoff_tiny_packet";
-      kind = active?0:1;
+      kind = loud?0:1;
    } else {
-      if (active){
-         if (!m->last_active && tiny && !why) why="resume_not_coded";
-         m->since=0; m->seen=0; kind = tiny?5:0;
+      if (loud){
+         if (!m->last_active && tiny && !why) why = mixo>0 ? "resume_not_coded_mixed" : "resume_not_coded";
+         m->since = (mixo>0 && !active) ? T-mixo : 0; m->seen=0; kind = tiny?5:(mixo>0?6:0);
       } else {
          if (!m->seen) m->since=start+T;
          if (tiny){
@@ -154,15 +179,17 @@ static int step(ctx_t *x,OpusEncoder *e,mon_t *m,int active,int fidx,unsigned ch
       } else m->run=0;
    }
    m->last_active=active;
+   if (mixo>0) MC_INC(c_mixed);
    if (n>0) mc_set_add(S_obs, mc_mix(mc_mix(c->dtx*2+c->analysis, c->di*2+c->vbr), mc_mix(kind*2+(dtx==1), mc_mix(pkt[0]>>3, n>2?3:n))));
    if (why){
       x->nfail++;
       snprintf(sig,sizeof sig,"e2:%s:%s",why,!c->dtx?"dtxoff":c->analysis?"opusdtx":"noanalysis");
-      mc_fail(sig,"[%s] switch points at %s (after a %g ms active warm-up): %s frame at %g ms: opus_encode=%d bytes (%s) OPUS_GET_IN_DTX=%d; silent for %g ms before this frame, DTX run now %g ms",
-              c->name,swstr(x),x->W*T/2.0,active?"ACTIVE":"silent",(fidx-x->W)*T/2.0,n,n>0?mc_hex(pkt,n<8?n:8):"",dtx,start/2.0,m->run/2.0);
+      mc_fail(sig,"[%s] switch points at %s (after a %g ms active warm-up): %s frame at %g ms%s: opus_encode=%d bytes (%s) OPUS_GET_IN_DTX=%d; silent for %g ms before this frame, DTX run now %g ms",
+              c->name,swstr(x),x->W*T/2.0,mixo>0?(active?"MIXED silence->ACTIVE":"MIXED active->silence"):active?"ACTIVE":"silent",(fidx-x->W)*T/2.0,(onech&&loud)?" (one channel active)":"",n,n>0?mc_hex(pkt,n<8?n:8):"",dtx,start/2.0,m->run/2.0);
    }
    return n;
 }
+static int step(ctx_t *x,OpusEncoder *e,mon_t *m,int active,int fidx,unsigned char *pkt){ return step2(x,e,m,active,0,0,fidx,pkt); }
 
 static void hash_state(ctx_t *x,int lvl,int pos,int active,int used){
    if (!g_hash_states) return;
@@ -170,44 +197,55 @@ static void hash_state(ctx_t *x,int lvl,int pos,int active,int used){
      h=mc_mix(h,mc_hash(&x->c,8*sizeof(int),2)); mc_set_add(S_states,h); }
 }
 
-static void walk(ctx_t *x,int lvl,int pos,int active,int used){
+/* mixo/onech describe how this segment was entered (first frame mixed / active samples on one channel only); mixused: the
+   schedule already contains its one intra-frame (or one-channel) switch */
+static void walk(ctx_t *x,int lvl,int pos,int active,int used,int mixo,int onech,int mixused){
    unsigned char pkt[1500]; int p,f; const int H=x->P*x->gs;
    MC_INC(c_sched);
    for(p=pos;p<x->P;p++){
       if (x->nfail>40) return;
       if (lvl==0 && x->n1>0 && p>=x->n1 && x->passidx>0) return;   /* the all-active trunk was already walked by the first pass */
       if (used<x->k && !(lvl>0&&p==pos) && !(lvl==0 && x->n1>0 && p>=x->n1)){
-         memcpy(x->enc[lvl+1],x->enc[lvl],x->encsz); x->mon[lvl+1]=x->mon[lvl]; x->sw[x->nsw++]=p;
-         walk(x,lvl+1,p,!active,used+1);
-         x->nsw--;
+         int offs[17],no=1,oi,v; offs[0]=0;
+         if (x->mixed && !mixused) no+=mix_offsets(x->c.tq,offs+1);
+         for(oi=0;oi<no;oi++) for(v=0;v<((x->mixed && !mixused && !active && x->c.ch==2)?2:1);v++){
+            /* v==1: the new active segment has only one channel active (counts as the schedule's one non-plain switch) */
+            memcpy(x->enc[lvl+1],x->enc[lvl],x->encsz); x->mon[lvl+1]=x->mon[lvl]; x->sw[x->nsw]=p; x->swo[x->nsw]=offs[oi]; x->swone[x->nsw]=v; x->nsw++;
+            walk(x,lvl+1,p,!active,used+1,offs[oi],v,mixused||offs[oi]>0||v);
+            x->nsw--;
+         }
       }
       if (active && used==x->k){
-         int fr0=p*x->gs; for(f=0;f<x->Lt && fr0+f<H;f++) step(x,x->enc[lvl],&x->mon[lvl],1,x->W+fr0+f,pkt);
+         int fr0=p*x->gs; for(f=0;f<x->Lt && fr0+f<H;f++){ step2(x,x->enc[lvl],&x->mon[lvl],1,mixo,onech,x->W+fr0+f,pkt); mixo=0; }
          return;
       }
-      for(f=0;f<x->gs;f++) step(x,x->enc[lvl],&x->mon[lvl],active,x->W+p*x->gs+f,pkt);
+      for(f=0;f<x->gs;f++){ step2(x,x->enc[lvl],&x->mon[lvl],active,mixo,onech,x->W+p*x->gs+f,pkt); mixo=0; }
       hash_state(x,lvl,p+1,active,used);
    }
 }
 
 /* ---- decoder mode: one schedule A(warm-up) S(b) A(tail), stream decoded as given and with DTX packets as losses ---- */
 static double dB(double a,double b){ if(a<1e-9)a=1e-9; if(b<1e-9)b=1e-9; return 10*log10(a/b); }
-static void dec_schedule(ctx_t *x,int bframes){
+static void dec_schedule(ctx_t *x,int bframes,int mixo,int onech){
    const cfg_t *c=&x->c; int T=c->tq, W=x->W, tailf=(400+T-1)/T /*200 ms*/, total=W+bframes+tailf, f, v, err;
    OpusEncoder *e=x->enc[1]; mon_t m={0,0,0,1}; unsigned char pkt[1500]; short *out=malloc(sizeof(short)*c->fsz*c->ch);
-   OpusDecoder *d[2]; double e_pre[2]={0,0},e_gap[2]={0,0},e_after[2]={0,0}; long n_pre=0,n_gap=0,n_after=0; int skip=(80+T-1)/T; /* skip 40 ms of convergence */
+   OpusDecoder *d[2]; double e_pre[2]={0,0},e_gap[2]={0,0},e_after[2]={0,0},e_res[2]={0,0}; long n_pre=0,n_gap=0,n_after=0,n_res=0; int skip=(80+T-1)/T; /* skip 40 ms of convergence */
    int ndtx=0;
    memcpy(e,x->enc[0],x->encsz);   /* encoder right after creation */
    for(v=0;v<2;v++) d[v]=opus_decoder_create(c->Fs,c->ch,&err);
-   x->nsw=0; x->sw[x->nsw++]=0; x->sw[x->nsw++]=bframes; { int gs=x->gs; x->gs=1;
+   x->nsw=0; x->swo[0]=0; x->swone[0]=0; x->sw[x->nsw++]=0; x->swo[1]=mixo; x->swone[1]=onech; x->sw[x->nsw++]=bframes; { int gs=x->gs; x->gs=1;
    for(f=0;f<total;f++){
       int active = f<W || f>=W+bframes, n, i;
-      n=step(x,e,&m,active,f,pkt); if(n<=0) break;
+      n=step2(x,e,&m,active,(f==W+bframes)?mixo:0,(f>=W+bframes)?onech:0,f,pkt); if(n<=0) break;
       for(v=0;v<2;v++){
          int asloss = v==1 && n<=2, r; double en=0;
          r=opus_decode(d[v],asloss?NULL:pkt,asloss?0:n,out,c->fsz,0); MC_INC(c_decpk);
          if (r!=c->fsz){ mc_fail(asloss?"dec:duration:as_loss":"dec:duration:as_given","[%s] silence of %g ms after %g ms: packet %d (%d bytes %s, %s) decoded %s returns %d, requested %d samples",c->name,bframes*T/2.0,W*T/2.0,f,n,mc_hex(pkt,n<4?n:4),active?"active":"silent",asloss?"as loss (NULL)":"as given",r,c->fsz); x->nfail++; goto done; }
          for(i=0;i<c->fsz*c->ch;i++) en+=(double)out[i]*out[i];
+         if (f==W+bframes && T-mixo>=40){   /* first frame of renewed activity: its loud part, less 10 ms of codec delay / onset, must be audible */
+            int s0=c->Fs/2000*(mixo+20), j; double er=0; for(j=s0*c->ch;j<c->fsz*c->ch;j++) er+=(double)out[j]*out[j];
+            e_res[v]=er; if(!v) n_res=(c->fsz-s0)*c->ch;
+         }
          if (f<W && f>=skip){ e_pre[v]+=en; if(!v)n_pre+=c->fsz*c->ch; }
          else if (!active && n<=2){ e_gap[v]+=en; if(!v){n_gap+=c->fsz*c->ch; ndtx++;} }
          else if (f>=W+bframes+skip){ e_after[v]+=en; if(!v)n_after+=c->fsz*c->ch; }
@@ -218,6 +256,8 @@ static void dec_schedule(ctx_t *x,int bframes){
       double pre=e_pre[v]/n_pre;
       if (n_gap>0){ double g=dB(e_gap[v]/n_gap,pre); MC_MAX(c_gapmax_mdB,(long)(g*1000)+200000);
          if (g>-GAP_DB){ mc_fail(v?"dec:gap_loud:as_loss":"dec:gap_loud:as_given","[%s] silence of %g ms: decoder output over the %d DTX packets (%s) is only %.1f dB below the decoded active level (limit %.0f dB)",c->name,bframes*T/2.0,ndtx,v?"fed as losses":"fed as given",-g,GAP_DB); x->nfail++; } }
+      if (n_res>0){ double r=dB(e_res[v]/n_res,pre); MC_MAX(c_resmin_mdB,(long)(-r*1000)+200000);
+         if (r<-RESUME_DB){ mc_fail(v?"dec:resume_frame_inaudible:as_loss":"dec:resume_frame_inaudible:as_given","[%s] silence of %g ms, activity resumes %g ms into the next frame%s: the decoded output of that frame (from 10 ms after the resumption) is %.1f dB below the decoded pre-gap level (limit %.0f dB) - the frame of renewed activity was not coded",c->name,bframes*T/2.0,mixo/2.0,onech?" (one channel active)":"",-r,RESUME_DB); x->nfail++; } }
       if (n_after>0){ double a=dB(e_after[v]/n_after,pre); MC_MAX(c_aftermax_mdB,(long)(a*1000)+200000); MC_MAX(c_aftermin_mdB,(long)(-a*1000)+200000);
          if (a<-AFTER_DB){ mc_fail(v?"dec:after_weak:as_loss":"dec:after_weak:as_given","[%s] silence of %g ms (%d DTX packets %s): renewed activity decodes %.1f dB below the pre-gap level (limit %.0f dB)",c->name,bframes*T/2.0,ndtx,v?"fed as losses":"fed as given",-a,AFTER_DB); x->nfail++; }
          if (a> AFTER_DB){ mc_fail(v?"dec:after_loud:as_loss":"dec:after_loud:as_given","[%s] silence of %g ms (%d DTX packets %s): renewed activity decodes %.1f dB above the pre-gap level (limit %.0f dB)",c->name,bframes*T/2.0,ndtx,v?"fed as losses":"fed as given",a,AFTER_DB); x->nfail++; } }
@@ -229,7 +269,7 @@ done:
 
 /* ---- items ---- */
 static long *g_items; static long g_nitems; static int g_mode; /* mode 0 sched, 1 dec */
-static int g_long_q1;
+static int g_long_q1, g_mixgap_q1[2];
 
 static void sample_trunk(ctx_t *x){
    /* written-out explored case: packet sizes of the schedule "silent from the end of the warm-up to the horizon" */
@@ -241,21 +281,22 @@ static void sample_trunk(ctx_t *x){
    mc_sample("[%s] warm-up %g ms active, then digital silence to the horizon -> packets: %s(in-DTX true on every DTX packet)",x->c.name,x->W*x->c.tq/2.0,b);
 }
 
-typedef struct { int k,grid_q1,n1; } pass_t;
+typedef struct { int k,grid_q1,n1,mixed; } pass_t;
 static pass_t g_pass[2][8]; static int g_npass[2];   /* [0] DTX-on configurations, [1] DTX-off configurations */
 static void parse_passes(const char *s,int which){
-   int n=0; while(*s && n<8){ int k=0,g=0,n1=0; if(sscanf(s,"%d:%d:%d",&k,&g,&n1)<2) break; if(k>MAXLVL-1)k=MAXLVL-1; g_pass[which][n].k=k; g_pass[which][n].grid_q1=2*g; g_pass[which][n].n1=n1; n++; s=strchr(s,','); if(!s)break; s++; }
+   int n=0; while(*s && n<8){ int k=0,g=0,n1=0,m=0; if(sscanf(s,"%d:%d:%d:%d",&k,&g,&n1,&m)<2) break; if(k>MAXLVL-1)k=MAXLVL-1; g_pass[which][n].k=k; g_pass[which][n].grid_q1=2*g; g_pass[which][n].n1=n1; g_pass[which][n].mixed=m; n++; s=strchr(s,','); if(!s)break; s++; }
    g_npass[which]=n;
 }
 static void set_pass(ctx_t *x,const pass_t *p,int idx){
-   x->k=p->k; x->gs=p->grid_q1/x->c.tq; if(x->gs<1)x->gs=1; x->P=(3200/x->c.tq)/x->gs; x->n1=p->n1; x->passidx=idx;
+   x->k=p->k; x->gs=p->grid_q1/x->c.tq; if(x->gs<1)x->gs=1; x->P=(3200/x->c.tq)/x->gs; x->n1=p->n1; x->passidx=idx; x->mixed=p->mixed;
+   x->Lt = x->Lt0; if (x->mixed){ x->Lt=(80+x->c.tq-1)/x->c.tq; if(x->Lt<2)x->Lt=2; }   /* mixed passes follow a final active segment for max(2 frames, 40 ms) */
 }
 
 static void sched_item(long it,void *vctx){
    ctx_t x; int i,f,pi; unsigned char pkt[1500]; long cidx=g_items[it]; OpusEncoder *base; mon_t mon0; int which;
    (void)vctx; memset(&x,0,sizeof x);
    cfg_decode(cidx,&x.c); which=!x.c.dtx;
-   x.W=(800+x.c.tq-1)/x.c.tq; x.Lt=(120+x.c.tq-1)/x.c.tq; if(x.Lt<3)x.Lt=3;
+   x.W=(800+x.c.tq-1)/x.c.tq; x.Lt=(120+x.c.tq-1)/x.c.tq; if(x.Lt<3)x.Lt=3; x.Lt0=x.Lt;
    set_pass(&x,&g_pass[which][0],0);
    mc_case("e2","%s",x.c.name);
    x.enc[0]=mk_encoder(&x.c,&x.encsz); for(i=1;i<=MAXLVL;i++) x.enc[i]=malloc(x.encsz); base=malloc(x.encsz);
@@ -263,15 +304,19 @@ static void sched_item(long it,void *vctx){
    x.mon[0].last_active=1;
    if (g_mode==1){
       /* decoder mode: silence lengths on the grid, 0 < b <= 1.2 s */
-      int b;
-      for(b=x.gs; b*x.c.tq<=2400 && x.nfail<6; b+=x.gs) dec_schedule(&x,b);
+      int b, offs[16], no=mix_offsets(x.c.tq,offs), oi, v, bm;
+      for(b=x.gs; b*x.c.tq<=2400 && x.nfail<6; b+=x.gs) dec_schedule(&x,b,0,0);
+      /* mixed resumption: activity resumes inside the frame that follows --mixgap ms of silence (rounded up to frames; default 280 ms:
+         inside the first DTX run), at every intra-frame offset, both channels / one channel active */
+      for(bm=0;bm<2 && g_mixgap_q1[bm]>0;bm++){ b=(g_mixgap_q1[bm]+x.c.tq-1)/x.c.tq;
+         for(v=0;v<x.c.ch && x.nfail<6;v++) for(oi=(v?-1:0);oi<no && x.nfail<6;oi++) dec_schedule(&x,b,oi<0?0:offs[oi],v); }
    } else {
       for(f=0;f<x.W;f++) step(&x,x.enc[0],&x.mon[0],1,f,pkt);
       memcpy(base,x.enc[0],x.encsz); mon0=x.mon[0];
       if (x.c.dtx && (cidx%97)==3) sample_trunk(&x);
       if (x.c.dtx && g_long_q1>0){
          /* one long gap: silence for --long ms (statement: gaps up to 5 s), then renewed activity */
-         int L=g_long_q1/x.c.tq, gs=x.gs; x.gs=1; x.nsw=0; x.sw[x.nsw++]=0; x.sw[x.nsw++]=L;
+         int L=g_long_q1/x.c.tq, gs=x.gs; x.gs=1; x.nsw=0; x.swo[0]=x.swo[1]=x.swone[0]=x.swone[1]=0; x.sw[x.nsw++]=0; x.sw[x.nsw++]=L;
          mc_case("e2","%s long gap %g ms",x.c.name,L*x.c.tq/2.0);
          memcpy(x.enc[1],base,x.encsz); x.mon[1]=mon0; MC_INC(c_sched);
          for(f=0;f<L;f++) step(&x,x.enc[1],&x.mon[1],0,x.W+f,pkt);
@@ -280,9 +325,9 @@ static void sched_item(long it,void *vctx){
       }
       for(pi=0;pi<g_npass[which];pi++){
          set_pass(&x,&g_pass[which][pi],pi);
-         mc_case("e2","%s pass k=%d grid=%gms n1=%d",x.c.name,x.k,x.gs*x.c.tq/2.0,x.n1);
+         mc_case("e2","%s pass k=%d grid=%gms n1=%d mixed=%d",x.c.name,x.k,x.gs*x.c.tq/2.0,x.n1,x.mixed);
          memcpy(x.enc[0],base,x.encsz); x.mon[0]=mon0; x.nsw=0;
-         walk(&x,0,0,1,0);
+         walk(&x,0,0,1,0,0,0,0);
       }
    }
    for(i=0;i<=MAXLVL;i++) free(x.enc[i]); free(base);
@@ -338,12 +383,13 @@ int main(int argc,char **argv){
    mc_init(argc,argv,"C20","sched");
    MC.part=mc_arg_s("--part","sched"); mode=mc_arg_s("--mode","sched");
    parse_passes(mc_arg_s("--passes","2:100:0"),0); parse_passes(mc_arg_s("--passes-off","2:200:0"),1);
-   g_long_q1=(int)(2*mc_arg("--long",0));
+   g_long_q1=(int)(2*mc_arg("--long",0)); g_mixgap_q1[0]=(int)(2*mc_arg("--mixgap",280)); g_mixgap_q1[1]=(int)(2*mc_arg("--mixgap2",0));
    cfgset=(int)mc_arg("--cfgset",0); g_hash_states=(int)mc_arg("--hash",1);
    c_sched=mc_counter("schedules"); c_enc=mc_counter("encodes"); c_eval=mc_counter("evaluations"); c_dtxpk=mc_counter("dtx_packets"); c_refresh=mc_counter("refresh_packets");
    c_dtxmode[0]=mc_counter("dtx_packets_silk_toc"); c_dtxmode[1]=mc_counter("dtx_packets_hybrid_toc"); c_dtxmode[2]=mc_counter("dtx_packets_celt_toc");
+   c_mixed=mc_counter("mixed_frames");
    c_cfg=mc_counter("configurations"); c_maxrun=mc_counter("max_dtx_run_q1"); c_dec=mc_counter("decoded_streams"); c_decpk=mc_counter("decoded_packets");
-   c_gapmax_mdB=mc_counter("cal_gap_max_mdB_plus200000"); c_aftermin_mdB=mc_counter("cal_after_min_neg_mdB_plus200000"); c_aftermax_mdB=mc_counter("cal_after_max_mdB_plus200000");
+   c_gapmax_mdB=mc_counter("cal_gap_max_mdB_plus200000"); c_aftermin_mdB=mc_counter("cal_after_min_neg_mdB_plus200000"); c_aftermax_mdB=mc_counter("cal_after_max_mdB_plus200000"); c_resmin_mdB=mc_counter("cal_resume_min_neg_mdB_plus200000");
    st=mc_counter("states"); tr=mc_counter("transitions"); dn=mc_counter("distinct_nontrivial");
    S_states=mc_set_new((int)mc_arg("--setlog",25)); S_obs=mc_set_new(16);
    mk_signals();
